@@ -68,7 +68,13 @@ def run(ctx: Ctx):
             ctx.case({"params": p, "metric": m, "t": [t_obj, t_res], "exact": ex["best"], "approx": ap["best"]},
                      nontrivial=differs or p["glb_size"] != "inf", branches=["differs" if differs else "same"])
             if ap["best"] is None:
-                ctx.fail("tolerance-loses-all-mappings", "with a tolerance the mapper returns no mapping although the exact run finds one", rep)
+                # classify by mechanism: the join-time re-prune with objective_tolerance>0 buckets reservation columns with the
+                # same tolerance when RESOURCE_USAGE is not requested, loses the only feasible combination and the join raises
+                if t_obj > 0 and p["glb_size"] != "inf" and str(ap["error"]).startswith("ValueError: No mappings found"):
+                    key = "objtol-join-reprune-buckets-reservations:no-mappings-found"
+                else:
+                    key = f"tolerance-loses-all-mappings:obj={'>0' if t_obj else '0'},res={'>0' if t_res else '0'}"
+                ctx.fail(key, "with a tolerance the mapper returns no mapping although the exact run finds one", rep)
             else:
                 tn = int(round(t_obj * 1000))
                 v = drv.ask("C16", {"op": "within", "exact": ML.to_int_vec([ex["best"]])[0], "approx": ML.to_int_vec([ap["best"]])[0],
